@@ -3,6 +3,31 @@
 import json, os, re, shutil, glob
 SRC = '/tmp/seed-out'; DST = os.path.join(os.path.dirname(os.path.dirname(os.path.abspath(__file__))), 'seeded')
 NOTES = {
+ 'C02-10': 'a reader defect of oj.Tokenizer (the finishing pass skipped when io.EOF comes on a read of its own): not caught by C02 (it reads events from the []byte entry point); caught by C03 (reader entry points against the other front-ends)',
+ 'C02-11': 'a sen.Tokenizer defect on plain JSON (member after an array-valued member): not caught by C02 (oj and gen front-ends); caught by C03 (token family, every front-end on container texts)',
+ 'C02-12': 'strengthened: missed at first by C02, C03, C07 and C08 (no Parser with Reuse set was ever given a channel); C03 gained leg E: every exported parse / tokenize / validate entry point (package functions, Must* and *String forms, methods of fresh and Reuse parsers) x every kind of optional argument x every way a reader ends, against (&Parser{}).Parse of the same package',
+ 'C03-10': "strengthened: missed at first (the harness reader always delivered io.EOF on a read of its own); C01, C03 and C09 now run every chunking under the reader's other lawful answers as well: io.EOF together with the last chunk, one empty read (0, nil) at every position. This exposed a genuine defect of sen.Tokenizer.Load (47b8a7b)",
+ 'C03-11': 'strengthened: missed at first (no member with the empty name in the token contexts); contexts with "" as member name, at the top and nested, added',
+ 'C03-12': 'strengthened: missed at first (only Parser.Parse / ParseReader were driven); caught by leg E (see C02-12)',
+ 'C04-10': "an aliasing defect (Marshal with a caller-supplied Writer returns the Writer's buffer): the text is right when it is returned, so not C04's business; caught by C07 (returned-value-mutated)",
+ 'C05-11': 'a filter-script defect (count() of an empty selection): not caught by C05 (no count() in its filter alphabet); caught by C12 (operator matrix, op=count)',
+ 'C05-12': 'strengthened: missed at first (the order of a result was only compared on documents without any object of two members, and none of those had several parents with several hits); whether order is defined is now decided per evaluation (pathref.Result.MapOrder) and two such documents were added to gens.PathData. C11 catches it as well',
+ 'C06-11': 'strengthened: missed at first (no SEN token function was ever called with a non-string argument); C06 gained the token-function family: AddMongoFuncs and a user function x every kind and number of arguments x three contexts x both entry points',
+ 'C07-10': 'a process-wide plan cache read with the wrong key: not caught by C07 (instances, not type caches); caught by C15 (first-use history leg) and C08 (plan-cache group)',
+ 'C08-10': 'strengthened: missed at first (no two registered types with the same short name); the alt group gained two Point types from different packages and two anonymous struct types, registered before the calls start. This exposed a genuine race on the composers map for anonymous types (repaired)',
+ 'C08-12': 'strengthened: missed at first (no Must* call on its failure path among the concurrent calls, and nothing watched the pool discipline); failing oj.MustParse / MustLoad / sen.MustParse / MustParseReader / oj.Marshal added, and the pool shim reports an object that is put back while it already sits in the pool',
+ 'C09-11': 'strengthened: missed at first (no empty read in any chunking); see C03-10. C09 also reports a run that raises no error at all where the default run of the same chunking reports one',
+ 'C09-12': 'strengthened: missed at first (inputs were exact slices and fresh read buffers); C01, C03 and C09 now run the []byte entry point on the same slice with its likeliest continuation stored right behind it in the spare capacity and with no spare capacity at all: the answer must not change',
+ 'C10-10': 'strengthened: missed at first (Options.FloatFormat was never set); every option vector of C10 and C04 is now also run with the documented default verb "%g" spelled out',
+ 'C10-12': "an aliasing defect (strings of the returned tree refer to the caller's buffer): the tree is right when it is returned, so not C10's business; caught by C07 (aliases-input)",
+ 'C11-12': 'strengthened: missed at first (no null member in any document); gens.PathData gained three documents with null members in arrays and objects, First / FirstNode returning nil for a selected null is accepted. This exposed a genuine defect of GetNodes / FirstNode (37ba87e)',
+ 'C12-11': "a Remove defect (the list is compacted in place while the filter is still being decided): not C12's business; caught by C13 after the path alphabet gained a filter that reads the filtered list through $ (see C13-11)",
+ 'C13-11': 'strengthened: missed at first (no filter read the list being filtered); the filter alphabet gained [?(@ == $[0])]. This exposed three genuine defects: a panic comparing structs, containers comparing equal to themselves in some representations (both repaired) and Modify deciding such a filter on the changing document (listed)',
+ 'C13-12': 'strengthened: missed at first (no null member in any document); see C11-12',
+ 'C14-11': 'the stand-alone filter parser jp.NewFilter (same change as C12-12): not caught by C14; caught by C12 (newfilter build of the logic leg)',
+ 'C15-11': 'the same change as C04-10 proposed independently: caught by C07',
+ 'C16-10': 'the same change as C04-10 proposed independently: caught by C07',
+ 'C17-12': 'a reader defect of oj.Tokenizer (an empty read taken for the end of the stream; same change as C09-11): not caught by C17 (its readers never return 0, nil); caught by C03 and C09',
  'C01-2': 'strengthened: missed at first (the stale look-ahead index only shows with a newline + blank before a quote at the end of a buffer); C01 gained the whitespace-placement family (every witness x one whitespace insertion x {as is, completed} x {[]byte, one chunk, every 2-split})',
  'C03-3': 'strengthened: the thorough tier (chunks of length 3) caught it, quick did not; quick gained the look-ahead chunk family (opener + every class representative + follower)',
  'C04-1': 'strengthened: missed at first (0x0b was not in the string alphabet; the escape table is private so classes cannot be recomputed); two leaves holding every byte 0x01-0x1f and 0x20-0x7f added',
@@ -75,15 +100,18 @@ NOTES = {
 ALSO = {'C16-3': 'C03', 'C10-2': 'C10, C02', 'C17-3': 'C02', 'C01-4': 'C07', 'C03-5': 'C07', 'C09-4': 'C07', 'C02-5': 'C07', 'C06-5': 'C07', 'C04-5': 'C07', 'C10-5': 'C07', 'C05-6': 'C12', 'C08-5': 'C08, C07', 'C17-5': 'C03', 'C17-6': 'C03', 'C12-6': 'C14', 'C14-5': 'C12', 'C16-4': 'C16, C15', 'C16-5': 'C15', 'C18-5': 'C18, C02, C03', 'C13-4': 'not caught (outside the stated data forms)', 'C02-7': 'C07', 'C02-8': 'C07', 'C02-9': 'C03', 'C03-7': 'C02', 'C05-9': 'C12', 'C06-7': 'C06, C03', 'C07-9': 'C15, C08', 'C08-9': 'C08, C07', 'C09-8': 'C01', 'C16-8': 'C15', 'C16-9': 'not caught (tagged embedded fields are outside the type alphabet)', 'C17-8': 'C02', 'C18-7': 'C02'}
 verify = {}
 for l in open(os.path.join(SRC, 'verify.log')):
-    m = re.match(r'(C\d+-\d): pkg=(\S+) suite_passes_with_change=(\S+) demo_fails_with_change=(\S+) demo_passes_without_change=(\S+) confirmed=(\d)', l)
+    m = re.match(r'(C\d+-\d+): pkg=(\S+) suite_passes_with_change=(\S+) demo_fails_with_change=(\S+) demo_passes_without_change=(\S+) confirmed=(\d)', l)
     if m:
         verify[m.group(1)] = dict(pkg=m.group(2), suite=m.group(3), fails=m.group(4), passes=m.group(5), ok=m.group(6) == '1')
-matrix = {}
+# every verdict recorded for a seed, the latest one per (seed, check) counts
+matrix_all = {}
 mp = os.path.join(SRC, 'matrix.jsonl')
 if os.path.exists(mp):
     for l in open(mp):
         if l.startswith('{'):
-            d = json.loads(l); matrix[d['seed']] = d
+            d = json.loads(l)
+            if d.get('exit') in (0, 1):
+                matrix_all.setdefault(d['seed'], {})[d['check']] = d
 n = 0
 for sid, v in sorted(verify.items()):
     if not v['ok']:
@@ -95,19 +123,22 @@ for sid, v in sorted(verify.items()):
     os.makedirs(d, exist_ok=True)
     shutil.copy(os.path.join(src, 'patch-%s.diff' % k), os.path.join(d, 'patch.diff'))
     shutil.copy(os.path.join(src, 'demo-%s_test.go' % k), os.path.join(d, 'demo_test.go'))
-    mx = matrix.get(sid, {})
-    caught = 'MISSED'
-    if mx.get('violations', 0) > 0:
-        caught = pid
+    recs = matrix_all.get(sid, {})
+    catchers = [ck for ck in [pid] + sorted(k for k in recs if k != pid) if recs.get(ck, {}).get('violations', 0) > 0]
+    caught = ', '.join(catchers) if catchers else 'MISSED'
+    mx = recs.get(catchers[0]) if catchers else recs.get(pid, {})
     if sid in ALSO:
         caught = ALSO[sid]
+        first = re.match(r'(C\d\d)', caught)
+        if first and first.group(1) in recs:
+            mx = recs[first.group(1)]
     out = {
         'id': sid, 'property': pid, 'summary': meta.get('summary', ''), 'needs': meta.get('needs', ''),
         'demo_pkg': v['pkg'], 'demo_cmd': meta.get('demo_cmd', 'copy demo_test.go into %s/ and run go test -vet=off -count=1 -run . ./%s/' % (v['pkg'], v['pkg'])),
         'written_by': 'fresh sub-agent given only the property text and a scratch worktree of /repo',
         'confirmed': {'how': 'tools/seedverify.sh in a scratch worktree of /repo HEAD', 'library_tests_pass_with_change': v['suite'] == 'yes',
                       'demo_fails_with_change': v['fails'] == 'yes', 'demo_passes_without_change': v['passes'] == 'yes'},
-        'detection': {'how': 'tools/seedtest.sh %s patch.diff quick (check run against a scratch worktree with the patch applied; /repo untouched)' % pid,
+        'detection': {'how': 'tools/seedtest.sh %s patch.diff quick (check run against a scratch worktree with the patch applied; /repo untouched)' % (mx.get('check') or pid),
                       'caught_by': caught, 'violations_reported': mx.get('violations'), 'first_signatures': mx.get('sigs', []), 'note': NOTES.get(sid, '')},
     }
     json.dump(out, open(os.path.join(d, 'meta.json'), 'w'), indent=1)
